@@ -119,7 +119,8 @@ def explore(ctx, per_spec, sizes):
         if spec.skeleton == "B":
             # the last cycles of a run on a larger pool (distinct points, several labels, few unlabeled samples left, batch of
             # 2-4): quotas per cluster / leaf have to be redistributed there (seeds R6C01, R8C14)
-            for _ in range(per_spec * 2):
+            # the per-leaf clustering of RegressionTreeBasedAL[representativity] is the most fragile consumer of the quotas
+            for _ in range(per_spec * (10 if "representativity" in spec.name else 2)):
                 nrs = np.random.RandomState(rng.randrange(2**31 - 1))
                 n = rng.randint(14, 30)
                 u = rng.randint(3, 9)
